@@ -39,6 +39,12 @@ type judge struct {
 	okHist   map[fkey][]*c03world.Fetch // successful responses in order
 	executed map[string]map[uint64]int  // kind -> slot -> sequence number of the call (this process)
 	lastHead *c03world.HeadRec
+	// voided: (kind, epoch) whose jobs a refresh withdrew while the accounts provider
+	// failed, so that it could not obtain the duties again; nothing is demanded for them
+	// until duties are obtained again
+	voided      map[fkey]bool
+	faultAction map[int]bool // actions during which an accounts fault was consumed
+	cancelled   map[int][]fkey
 	// job table at the previous quiescent point (name -> info)
 	prevJobs map[string]c03world.JobInfo
 	// at the beginning of the current action
@@ -67,6 +73,8 @@ type stats struct {
 	headEvents          int
 	crossEpochLate      int
 	slowNode            bool
+	accountsFaults      int
+	droppedJobs         int
 	straddled           int
 	refetches           int
 }
@@ -83,6 +91,9 @@ func (j *judge) resetProc(id int, startSlot uint64, waited bool) {
 	j.okHist = map[fkey][]*c03world.Fetch{}
 	j.executed = map[string]map[uint64]int{"attest": {}, "propose": {}, "sync-message": {}}
 	j.lastHead = nil
+	j.voided = map[fkey]bool{}
+	j.faultAction = map[int]bool{}
+	j.cancelled = map[int][]fkey{}
 	j.prevJobs = map[string]c03world.JobInfo{}
 	j.actionJobs = map[string]c03world.JobInfo{}
 }
@@ -235,6 +246,7 @@ func (j *judge) consume() []finding {
 			if f.Err {
 				j.st.providerErrors++
 			} else {
+				delete(j.voided, k)
 				j.okHist[k] = append(j.okHist[k], &f)
 				first := f.Epoch * j.spe()
 				for _, d := range f.Att {
@@ -256,6 +268,14 @@ func (j *judge) consume() []finding {
 			}
 			if o.Op == "fire" {
 				j.st.jobsFired++
+			}
+			if (o.Op == "cancel" || o.Op == "cancel-if-exists") && o.Err == "" {
+				switch o.Kind {
+				case c03world.KAttest:
+					j.cancelled[o.Action] = append(j.cancelled[o.Action], fkey{"att", o.Slot / j.spe()})
+				case c03world.KPropose, c03world.KEarlyPropose:
+					j.cancelled[o.Action] = append(j.cancelled[o.Action], fkey{"prop", o.Slot / j.spe()})
+				}
 			}
 			if o.Op != "schedule" || o.Err != "" {
 				continue
@@ -288,6 +308,10 @@ func (j *judge) consume() []finding {
 			c++
 			if cl.Proc != j.proc {
 				continue
+			}
+			if cl.Kind == "accounts-fault" {
+				j.faultAction[cl.Action] = true
+				j.st.accountsFaults++
 			}
 			switch cl.Kind {
 			case "attest", "propose", "sync-message":
@@ -366,6 +390,13 @@ func (j *judge) invariants(final bool) []finding {
 	if j.w.Proc == nil {
 		return nil
 	}
+	for a := range j.faultAction {
+		for _, k := range j.cancelled[a] {
+			if r := j.latest[k]; r == nil || r.Action != a || r.Err {
+				j.voided[k] = true
+			}
+		}
+	}
 	c := j.w.Slot()
 	now := j.w.Clock.Now()
 	jobs := j.w.Jobs()
@@ -435,6 +466,9 @@ func (j *judge) invariants(final bool) []finding {
 		}
 		if j.w.Node.Outstanding(k.kind, k.epoch) {
 			continue // a newer request is waiting for the (slow) node; its answer decides
+		}
+		if j.voided[k] {
+			continue // withdrawn by a refresh that could not obtain the validating accounts
 		}
 		var slots []uint64
 		if k.kind == "att" {
@@ -545,6 +579,9 @@ func (j *judge) afterHead(h *c03world.HeadRec) []finding {
 	// a head event for an earlier slot than the clock's ("late"), or a change
 	// relative to such an event, is reported under its own signature
 	late := h.EventSlot != h.ClockSlot || L.EventSlot != L.ClockSlot
+	if j.faultAction[h.Action] {
+		return nil // vouch could not obtain the validating accounts; duties cannot be demanded
+	}
 	for _, k := range affected {
 		// anything obtained before the event?
 		var old *c03world.Fetch
